@@ -86,6 +86,14 @@ func (b *Batch) RunGenerators(pluginBin, self string) error {
 		if err := ioutil.WriteFile(cfgPath, []byte(y.YAML()), 0o644); err != nil {
 			return err
 		}
+	case "blank:empty", "blank:comments", "blank:lines":
+		// a readable file without any YAML document: the configuration it describes is the empty one
+		text := map[string]string{"blank:empty": "", "blank:comments": "# generated configuration\n# (nothing set)\n", "blank:lines": "\n\n  \n"}[b.Case.YamlState]
+		cfgPath = filepath.Join(b.Dir, "config.yaml")
+		if err := ioutil.WriteFile(cfgPath, []byte(text), 0o644); err != nil {
+			return err
+		}
+		y = desc.Config{}
 	case "missing":
 		cfgPath = filepath.Join(b.Dir, "no-such-config.yaml")
 	case "garbage":
